@@ -379,6 +379,12 @@ func (h *RealtimeHandler) HandleEntityUpdatePose(ctx context.Context, msg hwebso
 			WithTag("msg_type", msg.Type)
 	}
 
+	if update.Pose == nil {
+		// An update that carries no pose is dropped, like the other updates
+		// that can't be applied.
+		return nil
+	}
+
 	entity, ok := session.EntityByID(update.EntityId)
 	if !ok {
 		return nil
